@@ -20,6 +20,18 @@
 //!     mx=<v|N>,..                       the `it=` ops (f = next, b = next_back) on one iterator
 //!     of=<i>:<offset>,..                offset(MatrixCoordinates { row: i % rows, col: i / rows })
 //!     cv=ok|<what differs>              From/AsRef/Deref/Default conversions of Scores / StripedScores
+//!   HISTORY cases (`hist=1`): one reused `StripedScores` buffer driven through a list of calls
+//!     <id> hist=1 C=<c> pad=<hex> ms=<abc>:<row;row;..>|.. qs=<abc>:<wrap>:<letters>|.. ops=<op>,<op>,..
+//!     op = S.<p>.<mi>.<qi>        pli.score_into(&ms[mi], &qs[qi], &mut scores)
+//!        | R.<p>.<mi>.<qi>.<a>.<b> pli.score_rows_into(&ms[mi], &qs[qi], a..b, &mut scores)
+//!        | Z.<rows>.<max_index>    scores.resize(rows, max_index)
+//!        | C                       scores = scores.clone()
+//!        | D                       scores = Default::default()
+//!     observation: q<j>=<len>/<wrap>/<rows> (striped matrix of sequence j), and after step i:
+//!     o<i>=<res> (`P|<res>`: the call panicked, <res> is what the buffer holds afterwards),
+//!     f<i>=<res> the same call through the generic pipeline on a FRESH buffer (`=`: identical to o<i>),
+//!     u<i>=<n>/<values> unstripe(), l<i>=iter().len(), e<i>=is_empty(), x<i>=<idx>:<v>;.. Index,
+//!     v<i>=<what> when Vec::from(scores.clone()) / iter().rev() disagree with unstripe()
 //!   pipelines: g generic, s sse2, a avx2, dg/ds/da Pipeline::dispatch() with the arm forced,
 //!   mg/ms/ma ScoringMatrix::score with the arm forced, md ScoringMatrix::score unforced.
 //!   <res> = `P` (panic) | `<max_index>/<rows>/<row,row,..>` (cells as 8-digit hex, NaN
@@ -179,6 +191,33 @@ trait Cols<A: Alphabet>: PositiveLength + MultipleOf<U16> {
     ) -> Option<StripedScores<f32, Self>> {
         None
     }
+    /// one call of a history on the reused buffer: `score_into` (rows = None) or `score_rows_into`
+    fn call(
+        p: &str,
+        pssm: &ScoringMatrix<A>,
+        seq: &StripedSequence<A, Self>,
+        rows: Option<Range<usize>>,
+        buf: &mut StripedScores<f32, Self>,
+    ) {
+        match p {
+            "g" => call_with::<A, Self, _>(&Pipeline::<A, _>::generic(), pssm, seq, rows, buf),
+            "s" => call_with::<A, Self, _>(&Pipeline::<A, _>::sse2().unwrap(), pssm, seq, rows, buf),
+            _ => panic!("pipeline {} does not exist for this column count", p),
+        }
+    }
+}
+
+fn call_with<A: Alphabet, C: PositiveLength, P: Score<f32, A, C>>(
+    pli: &P,
+    pssm: &ScoringMatrix<A>,
+    seq: &StripedSequence<A, C>,
+    rows: Option<Range<usize>>,
+    buf: &mut StripedScores<f32, C>,
+) {
+    match rows {
+        None => Score::<f32, A, C>::score_into(pli, pssm, seq, buf),
+        Some(r) => Score::<f32, A, C>::score_rows_into(pli, pssm, seq, r, buf),
+    }
 }
 
 fn base_runners<A: Alphabet, C: PositiveLength + MultipleOf<U16>>() -> Vec<(&'static str, Runner<A, C>)> {
@@ -270,19 +309,245 @@ impl<A: Alphabet> Cols<A> for U32 {
     ) -> Option<StripedScores<f32, Self>> {
         Some(pssm.score(seq))
     }
+    fn call(
+        p: &str,
+        pssm: &ScoringMatrix<A>,
+        seq: &StripedSequence<A, Self>,
+        rows: Option<Range<usize>>,
+        buf: &mut StripedScores<f32, Self>,
+    ) {
+        let forced = |arm: Dispatch| {
+            force_backend(Some(arm));
+            Pipeline::<A, _>::dispatch()
+        };
+        match p {
+            "g" => call_with::<A, U32, _>(&Pipeline::<A, _>::generic(), pssm, seq, rows, buf),
+            "s" => call_with::<A, U32, _>(&Pipeline::<A, _>::sse2().unwrap(), pssm, seq, rows, buf),
+            "a" => call_with::<A, U32, _>(&Pipeline::<A, _>::avx2().unwrap(), pssm, seq, rows, buf),
+            "dg" => call_with::<A, U32, _>(&forced(Dispatch::Generic), pssm, seq, rows, buf),
+            "ds" => call_with::<A, U32, _>(&forced(Dispatch::Sse2), pssm, seq, rows, buf),
+            "da" => call_with::<A, U32, _>(&forced(Dispatch::Avx2), pssm, seq, rows, buf),
+            _ => panic!("unknown pipeline {}", p),
+        }
+    }
 }
 
-fn run_cols<A: Alphabet, C: Cols<A>>(case: &Case) -> String {
+/// scoring matrix: every storage cell (padding included) is first set to `pad`
+fn make_pssm<A: Alphabet>(rows: &[Vec<u32>], pad: u32) -> ScoringMatrix<A> {
     let k = <A::K as Unsigned>::USIZE;
-    // scoring matrix: every storage cell (padding included) is first set to `pad`
-    let mut data = DenseMatrix::<f32, A::K>::new(case.pssm.len());
-    data.fill(f32::from_bits(case.pad));
-    for (j, row) in case.pssm.iter().enumerate() {
+    let mut data = DenseMatrix::<f32, A::K>::new(rows.len());
+    data.fill(f32::from_bits(pad));
+    for (j, row) in rows.iter().enumerate() {
         for s in 0..k {
             data[j][s] = f32::from_bits(row[s]);
         }
     }
-    let pssm = ScoringMatrix::<A>::new(Background::uniform(), data);
+    ScoringMatrix::<A>::new(Background::uniform(), data)
+}
+
+fn show_striped<A: Alphabet, C: PositiveLength>(key: &str, striped: &StripedSequence<A, C>) -> String {
+    let m = striped.matrix();
+    let mut s = format!("{}={}/{}/", key, striped.len(), striped.wrap());
+    for r in 0..m.rows() {
+        if r > 0 {
+            s.push(',');
+        }
+        for c in 0..C::USIZE {
+            s.push((b'a' + m[r][c].as_index() as u8) as char);
+        }
+    }
+    s
+}
+
+// ---------------------------------------------------------------- histories on one buffer
+
+struct Hist {
+    c: usize,
+    pad: u32,
+    ms: Vec<(String, Vec<Vec<u32>>)>,
+    qs: Vec<(String, usize, String)>,
+    ops: Vec<Vec<String>>,
+}
+
+fn parse_rows(k: usize, text: &str) -> Vec<Vec<u32>> {
+    if text == "-" || text.is_empty() {
+        return vec![];
+    }
+    text.split(';')
+        .map(|r| {
+            assert_eq!(r.len(), 8 * k);
+            (0..k).map(|i| u32::from_str_radix(&r[8 * i..8 * i + 8], 16).unwrap()).collect()
+        })
+        .collect()
+}
+
+fn parse_hist(line: &str) -> Hist {
+    let (_, f) = fields(line);
+    let ms = f["ms"]
+        .split('|')
+        .map(|m| {
+            let (abc, rows) = m.split_once(':').unwrap();
+            (abc.to_string(), parse_rows(if abc == "dna" { 5 } else { 21 }, rows))
+        })
+        .collect();
+    let qs = f["qs"]
+        .split('|')
+        .map(|q| {
+            let mut it = q.splitn(3, ':');
+            let abc = it.next().unwrap().to_string();
+            let wrap = it.next().unwrap().parse().unwrap();
+            let seq = it.next().unwrap();
+            (abc, wrap, if seq == "-" { String::new() } else { seq.to_string() })
+        })
+        .collect();
+    Hist {
+        c: f["C"].parse().unwrap(),
+        pad: u32::from_str_radix(&f["pad"], 16).unwrap(),
+        ms,
+        qs,
+        ops: f["ops"].split(',').map(|o| o.split('.').map(|x| x.to_string()).collect()).collect(),
+    }
+}
+
+struct Typed<A: Alphabet, C: Cols<A>> {
+    ms: Vec<Option<ScoringMatrix<A>>>,
+    qs: Vec<Option<StripedSequence<A, C>>>,
+}
+
+fn build_typed<A: Alphabet, C: Cols<A>>(h: &Hist, abc: &str, out: &mut Vec<String>) -> Typed<A, C> {
+    let ms = h
+        .ms
+        .iter()
+        .map(|(a, rows)| if a == abc { Some(make_pssm::<A>(rows, h.pad)) } else { None })
+        .collect();
+    let mut qs = vec![];
+    for (j, (a, wrap, seq)) in h.qs.iter().enumerate() {
+        if a == abc {
+            let enc = EncodedSequence::<A>::encode(seq).expect("generated sequences are valid");
+            let mut striped: StripedSequence<A, C> = <C as Cols<A>>::stripe(&enc);
+            striped.configure_wrap(*wrap);
+            out.push(show_striped(&format!("q{}", j), &striped));
+            qs.push(Some(striped));
+        } else {
+            qs.push(None);
+        }
+    }
+    Typed { ms, qs }
+}
+
+fn hist_scoring_call<A: Alphabet, C: Cols<A>>(
+    t: &Typed<A, C>,
+    p: &str,
+    mi: usize,
+    qi: usize,
+    rows: Option<Range<usize>>,
+    buf: &mut StripedScores<f32, C>,
+) -> bool {
+    let pssm = t.ms[mi].as_ref().expect("motif and sequence of one call share the alphabet");
+    let seq = t.qs[qi].as_ref().expect("motif and sequence of one call share the alphabet");
+    let r = no_panic(|| <C as Cols<A>>::call(p, pssm, seq, rows, buf));
+    force_backend(None);
+    r.is_some()
+}
+
+fn run_hist_cols<C: Cols<Dna> + Cols<Protein>>(h: &Hist) -> String {
+    let mut out: Vec<String> = vec![];
+    let dna: Typed<Dna, C> = build_typed(h, "dna", &mut out);
+    let prot: Typed<Protein, C> = build_typed(h, "prot", &mut out);
+    let mut buf: StripedScores<f32, C> = StripedScores::empty();
+    for (i, op) in h.ops.iter().enumerate() {
+        let num = |k: usize| -> usize { op[k].parse().unwrap() };
+        let mut ok = true;
+        let mut fresh: Option<String> = None;
+        match op[0].as_str() {
+            "S" | "R" => {
+                let (p, mi, qi) = (op[1].as_str(), num(2), num(3));
+                let rows = if op[0] == "R" { Some(num(4)..num(5)) } else { None };
+                let mut fb: StripedScores<f32, C> = StripedScores::empty();
+                let is_dna = h.ms[mi].0 == "dna";
+                let (r, fr) = if is_dna {
+                    (
+                        hist_scoring_call(&dna, p, mi, qi, rows.clone(), &mut buf),
+                        hist_scoring_call(&dna, "g", mi, qi, rows.clone(), &mut fb),
+                    )
+                } else {
+                    (
+                        hist_scoring_call(&prot, p, mi, qi, rows.clone(), &mut buf),
+                        hist_scoring_call(&prot, "g", mi, qi, rows.clone(), &mut fb),
+                    )
+                };
+                ok = r;
+                fresh = Some(if fr { show_scores(&fb) } else { "P".to_string() });
+            }
+            "Z" => {
+                let (rows, maxi) = (num(1), num(2));
+                ok = no_panic(|| buf.resize(rows, maxi)).is_some();
+            }
+            "C" => {
+                let c = buf.clone();
+                buf = c;
+            }
+            "D" => buf = Default::default(),
+            _ => panic!("unknown history op"),
+        }
+        let state = show_scores(&buf);
+        let o = if ok { state.clone() } else { format!("P|{}", state) };
+        if let Some(f) = fresh {
+            out.push(if f == o { format!("f{}==", i) } else { format!("f{}={}", i, f) });
+        }
+        out.push(format!("o{}={}", i, o));
+        let un = no_panic(|| buf.unstripe());
+        out.push(format!("u{}={}", i, un.as_ref().map(|v| show_values(v)).unwrap_or_else(|| "P".to_string())));
+        out.push(format!("l{}={}", i, no_panic(|| buf.iter().len()).map(|n| n.to_string()).unwrap_or_else(|| "P".to_string())));
+        out.push(format!("e{}={}", i, if buf.is_empty() { 1 } else { 0 }));
+        let rows = buf.matrix().rows();
+        let idx = [buf.max_index() / 2, rows * C::USIZE, if rows > 0 { rows * C::USIZE - 1 } else { 0 }];
+        let xs: Vec<String> = idx
+            .iter()
+            .map(|j| match no_panic(|| buf[*j]) {
+                Some(v) => format!("{}:{:08x}", j, canon(v)),
+                None => format!("{}:P", j),
+            })
+            .collect();
+        out.push(format!("x{}={}", i, xs.join(";")));
+        // the other ways of reading the same values
+        if let Some(u) = un {
+            let bits = |v: &[f32]| v.iter().map(|x| canon(*x)).collect::<Vec<u32>>();
+            let want = bits(&u);
+            let mut bad: Vec<&str> = vec![];
+            match no_panic(|| Vec::<f32>::from(buf.clone())) {
+                Some(v) if bits(&v) == want => {}
+                _ => bad.push("Vec::from"),
+            }
+            match no_panic(|| buf.iter().rev().cloned().collect::<Vec<f32>>()) {
+                Some(mut v) => {
+                    v.reverse();
+                    if bits(&v) != want {
+                        bad.push("rev");
+                    }
+                }
+                None => bad.push("rev"),
+            }
+            if !bad.is_empty() {
+                out.push(format!("v{}={}", i, bad.join("+")));
+            }
+        }
+    }
+    out.join(" ")
+}
+
+fn run_hist(h: &Hist) -> String {
+    match h.c {
+        16 => run_hist_cols::<U16>(h),
+        32 => run_hist_cols::<U32>(h),
+        48 => run_hist_cols::<U48>(h),
+        64 => run_hist_cols::<U64>(h),
+        _ => panic!("unsupported configuration"),
+    }
+}
+
+fn run_cols<A: Alphabet, C: Cols<A>>(case: &Case) -> String {
+    let pssm = make_pssm::<A>(&case.pssm, case.pad);
 
     let enc = EncodedSequence::<A>::encode(&case.seq).expect("generated sequences are valid");
     let mut striped: StripedSequence<A, C> = C::stripe(&enc);
@@ -533,18 +798,187 @@ fn gen_cell(rng: &mut Rng, style: u64) -> u32 {
     }
 }
 
+/// a history of calls on one reused StripedScores buffer
+fn gen_hist(rng: &mut Rng, id: usize, tier: &str) -> String {
+    let thorough = tier == "thorough";
+    let c: usize = match rng.below(100) {
+        0..=54 => 32,
+        55..=89 => 16,
+        90..=94 => 48,
+        _ => 64,
+    };
+    let mixed = rng.chance(30, 100);
+    let main_abc = if rng.chance(60, 100) { "dna" } else { "prot" };
+    let abc_of = |rng: &mut Rng| {
+        if mixed && rng.chance(1, 2) {
+            if main_abc == "dna" { "prot" } else { "dna" }
+        } else {
+            main_abc
+        }
+    };
+    // motifs
+    let nm = 2 + rng.below(3) as usize;
+    let mut ms: Vec<(&str, usize, String)> = vec![];
+    for i in 0..nm {
+        let abc = if i == 0 { main_abc } else { abc_of(rng) };
+        let k = if abc == "dna" { 5 } else { 21 };
+        let m = match rng.below(10) {
+            0..=5 => 1 + rng.below(6) as usize,
+            6..=8 => 7 + rng.below(8) as usize,
+            _ => 15 + rng.below(if thorough { 16 } else { 6 }) as usize,
+        };
+        let style = *rng.pick(&[0u64, 0, 1, 1, 2, 3]);
+        let wild_inf = rng.chance(1, 2);
+        let rows: Vec<String> = (0..m)
+            .map(|_| {
+                (0..k)
+                    .map(|s| {
+                        let mut v = gen_cell(rng, style);
+                        if rng.chance(5, 100) {
+                            v = if rng.chance(1, 2) { 0 } else { 0x8000_0000 };
+                        }
+                        if (s == k - 1 && wild_inf) || rng.chance(1, 100) {
+                            v = NEG_INF;
+                        }
+                        format!("{:08x}", v)
+                    })
+                    .collect::<String>()
+            })
+            .collect();
+        ms.push((abc, m, rows.join(";")));
+    }
+    // sequences: several lengths with the SAME number of rows, shorter and longer ones, some
+    // shorter than a motif, sometimes the empty sequence
+    let base_r = 1 + rng.below(if thorough { 6 } else { 4 }) as usize;
+    let nq = 2 + rng.below(3) as usize;
+    let mut qs: Vec<(&str, usize, usize, String)> = vec![];
+    for i in 0..nq {
+        let abc = if i == 0 { main_abc } else { abc_of(rng) };
+        let (alpha, k) = if abc == "dna" { (DNA, 5usize) } else { (PROT, 21usize) };
+        let l = match rng.below(100) {
+            // same number of rows, different lengths
+            0..=44 => (base_r - 1) * c + 1 + rng.below(c as u64) as usize,
+            45..=54 => base_r * c - rng.below(3) as usize,
+            // fewer / more rows
+            55..=69 => 1 + rng.below((base_r * c) as u64) as usize,
+            70..=84 => base_r * c + 1 + rng.below(3 * c as u64) as usize,
+            // shorter than most motifs, empty
+            85..=95 => rng.below(8) as usize,
+            _ => 0,
+        };
+        let need = ms.iter().filter(|m| m.0 == abc).map(|m| m.1.saturating_sub(1)).max().unwrap_or(0);
+        let wrap = match rng.below(100) {
+            0..=79 => need,
+            80..=91 => need + 1 + rng.below(4) as usize,
+            _ => rng.below(need as u64 + 1) as usize,
+        };
+        let wild = *rng.pick(&[0u64, 5, 5, 5, 30]);
+        let seq: String = (0..l)
+            .map(|_| {
+                let s = if rng.below(100) < wild { k - 1 } else { rng.below(k as u64 - 1) as usize };
+                alpha.as_bytes()[s] as char
+            })
+            .collect();
+        qs.push((abc, wrap, l, seq));
+    }
+    // operations
+    let pipes: &[&str] = if c == 32 { &["g", "s", "a", "dg", "ds", "da", "s", "a"] } else { &["g", "s", "s"] };
+    let nops = 3 + rng.below(if thorough { 12 } else { 7 }) as usize;
+    let mut ops: Vec<String> = vec![];
+    for i in 0..nops {
+        let last = i + 1 == nops;
+        let kind = if last && rng.chance(75, 100) { 0 } else { rng.below(100) };
+        match kind {
+            0..=69 => {
+                // a scoring call: motif and sequence of the same alphabet
+                let qi = rng.below(qs.len() as u64) as usize;
+                let cands: Vec<usize> = (0..ms.len()).filter(|j| ms[*j].0 == qs[qi].0).collect();
+                if cands.is_empty() {
+                    ops.push("C".to_string());
+                    continue;
+                }
+                let mi = *rng.pick(&cands);
+                let p = *rng.pick(pipes);
+                let r = (qs[qi].2 + c - 1) / c;
+                let total = r + qs[qi].1;
+                if kind <= 37 {
+                    ops.push(format!("S.{}.{}.{}", p, mi, qi));
+                } else {
+                    let (a, b) = match rng.below(100) {
+                        0..=59 if r > 0 => {
+                            let a = rng.below(r as u64) as usize;
+                            (a, a + 1 + rng.below((r - a) as u64) as usize)
+                        }
+                        60..=69 => {
+                            let a = rng.below(total as u64 + 1) as usize;
+                            (a, a)
+                        }
+                        70..=84 if total > 0 => {
+                            let a = rng.below(total as u64) as usize;
+                            (a, a + 1 + rng.below((total - a) as u64) as usize)
+                        }
+                        85..=91 => (rng.below(total as u64 + 1) as usize, total + 1 + rng.below(2) as usize),
+                        _ => (0, r),
+                    };
+                    ops.push(format!("R.{}.{}.{}.{}.{}", p, mi, qi, a, b));
+                }
+            }
+            70..=84 => {
+                let rows = rng.below(base_r as u64 + 4) as usize;
+                let maxi = match rng.below(5) {
+                    0 => 0,
+                    1 => rows * c,
+                    2 => rows * c + 1 + rng.below(40) as usize,
+                    3 => (rows * c).saturating_sub(1 + rng.below(c as u64) as usize),
+                    _ => rng.below(300) as usize,
+                };
+                ops.push(format!("Z.{}.{}", rows, maxi));
+            }
+            85..=93 => ops.push("C".to_string()),
+            _ => ops.push("D".to_string()),
+        }
+    }
+    let pad = *rng.pick(&[0x7fc0_0000u32, 0x7f80_0000, 0x4640_e400, 0xff80_0000, 0]);
+    format!(
+        "h{} hist=1 C={} pad={:08x} ms={} qs={} ops={}",
+        id,
+        c,
+        pad,
+        ms.iter()
+            .map(|m| format!("{}:{}", m.0, if m.2.is_empty() { "-" } else { m.2.as_str() }))
+            .collect::<Vec<_>>()
+            .join("|"),
+        qs.iter()
+            .map(|q| format!("{}:{}:{}", q.0, q.1, if q.3.is_empty() { "-" } else { q.3.as_str() }))
+            .collect::<Vec<_>>()
+            .join("|"),
+        ops.join(",")
+    )
+}
+
 fn gen_case(rng: &mut Rng, id: usize, tier: &str) -> String {
     let thorough = tier == "thorough";
+    // 10 %: a history of calls on one reused StripedScores buffer
+    if rng.chance(10, 100) {
+        return gen_hist(rng, id, tier);
+    }
     let abc = if rng.chance(55, 100) { "dna" } else { "prot" };
     let (alpha, k) = if abc == "dna" { (DNA, 5usize) } else { (PROT, 21usize) };
     // 16 columns is `DefaultColumns` on hosts without AVX2 (and the lane count of the NEON
     // dispatcher); 48 and 64 exercise more than two 16-column blocks of the SSE2 kernel
-    let c: usize = match rng.below(100) {
+    let mut c: usize = match rng.below(100) {
         0..=49 => 32,
         50..=84 => 16,
         85..=92 => 48,
         _ => 64,
     };
+    // 8 %: FINITE wildcard column + many wildcard symbols in the sequence + many -0.0 / +0.0 cells,
+    // at 16 and 32 columns (the SSE2 kernel adds `lut & mask` for every symbol incl. the wildcard;
+    // the generic and AVX2 kernels look the wildcard cell up like any other)
+    let wc_focus = rng.chance(8, 100);
+    if wc_focus {
+        c = if rng.chance(1, 2) { 16 } else { 32 };
+    }
     // motif width
     let m: usize = match rng.below(100) {
         0 => 0,
@@ -582,16 +1016,17 @@ fn gen_case(rng: &mut Rng, id: usize, tier: &str) -> String {
         92..=96 => 4,
         _ => 5,
     };
-    let wild_inf = rng.chance(60, 100);
-    let inf_elsewhere = rng.chance(25, 100);
-    let special = rng.chance(3, 100);
+    let wild_inf = rng.chance(60, 100) && !wc_focus;
+    let inf_elsewhere = rng.chance(25, 100) && !wc_focus;
+    let special = rng.chance(3, 100) && !wc_focus;
+    let zero_rate = if wc_focus { *rng.pick(&[20u64, 40, 100]) } else { 5 };
     let mut rows: Vec<String> = vec![];
     for _ in 0..m {
         let mut row = String::new();
         for s in 0..k {
             let mut v = gen_cell(rng, style);
-            if rng.chance(5, 100) {
-                v = if rng.chance(1, 2) { 0 } else { 0x8000_0000 };
+            if rng.chance(zero_rate, 100) {
+                v = if rng.chance(if wc_focus { 1 } else { 2 }, 4) { 0 } else { 0x8000_0000 };
             }
             if (s == k - 1 && wild_inf) || (inf_elsewhere && rng.chance(3, 100)) {
                 v = NEG_INF;
@@ -608,12 +1043,15 @@ fn gen_case(rng: &mut Rng, id: usize, tier: &str) -> String {
     let pad = *rng.pick(&[0x7fc0_0000u32, 0x7f80_0000, 0x4640_e400, 0xff80_0000, 0]);
 
     // sequence
-    let wild = match rng.below(100) {
+    let mut wild = match rng.below(100) {
         0..=9 => 40,
         10..=14 => 100,
         15..=24 => 0,
         _ => 5,
     };
+    if wc_focus {
+        wild = *rng.pick(&[15u64, 30, 60]);
+    }
     let mono = rng.chance(5, 100);
     let mono_sym = rng.below(k as u64 - 1) as usize;
     let seq: String = (0..l)
@@ -775,8 +1213,12 @@ fn main() {
             silence_panics();
             for line in stdin_lines() {
                 let input = line.split(" => ").next().unwrap().to_string();
-                let (_, case) = parse_case(&input);
-                let obs = run_case(&case);
+                let obs = if input.contains(" hist=1 ") {
+                    run_hist(&parse_hist(&input))
+                } else {
+                    let (_, case) = parse_case(&input);
+                    run_case(&case)
+                };
                 println!("{} => {}", input, obs);
             }
         }
